@@ -8,7 +8,7 @@
 //!
 //! * `HashMap` / `HashSet`: a key maps to at most one value; iteration visits every entry
 //!   exactly once in an *unspecified* order. The model stores entries in `CAP` slots. When
-//!   `NONDET_ORDER` is on, a new key is placed in an arbitrary free slot (chosen by the
+//!   `set_nondet_order(true)` is on, a new key is placed in an arbitrary free slot (chosen by the
 //!   solver), so iteration may observe any order, which is what "unspecified" means.
 //! * `IndexMap`: entries are kept in insertion order; `shift_remove` preserves the order of
 //!   the remaining entries, `swap_remove` moves the last entry into the hole.
@@ -20,39 +20,46 @@ use std::borrow::Borrow;
 
 pub const CAP: usize = 4;
 
-/// When true (set by a harness), new `HashMap` keys are placed in a solver-chosen free slot.
-pub static mut NONDET_ORDER: bool = false;
+/// Probe state. Kept in one struct that starts with a unique non-zero tag: Kani 0.68 can resolve a
+/// constant whose bytes equal a static's initial value (e.g. eight zero bytes) to that static's
+/// symbol, so a plain `static mut X: usize = 0` written by a probe could change such a constant.
+pub struct Probes {
+    pub tag: u64,
+    /// When true (set by a harness), new `HashMap` keys are placed in a solver-chosen free slot.
+    pub nondet_order: bool,
+    /// Largest single buffer size a parser asked for since the last `reset_alloc_probe` (C05).
+    pub max_alloc_request: usize,
+}
+
+pub static mut PROBES: Probes = Probes { tag: 0x6D69_6C61_5052_4F42, nondet_order: false, max_alloc_request: 0 };
 
 pub fn set_nondet_order(on: bool) {
     unsafe {
-        NONDET_ORDER = on;
+        PROBES.nondet_order = on;
     }
 }
 
-/// Largest single buffer size a parser asked for since the last `reset_alloc_probe` (C05).
-pub static mut MAX_ALLOC_REQUEST: usize = 0;
-
 pub fn note_alloc(size: usize) {
     unsafe {
-        if size > MAX_ALLOC_REQUEST {
-            MAX_ALLOC_REQUEST = size;
+        if size > PROBES.max_alloc_request {
+            PROBES.max_alloc_request = size;
         }
     }
 }
 
 pub fn reset_alloc_probe() {
     unsafe {
-        MAX_ALLOC_REQUEST = 0;
+        PROBES.max_alloc_request = 0;
     }
 }
 
 pub fn max_alloc_request() -> usize {
-    unsafe { MAX_ALLOC_REQUEST }
+    unsafe { PROBES.max_alloc_request }
 }
 
 #[cfg(kani)]
 fn choose_slot(free_count: usize) -> usize {
-    if unsafe { NONDET_ORDER } {
+    if unsafe { PROBES.nondet_order } {
         let pick: usize = kani::any();
         kani::assume(pick < free_count);
         pick
